@@ -10,6 +10,13 @@ impl StrBuf {
 pub assume_specification [char::is_ascii_digit] (c: &char) -> (r: bool) ensures r == ('0' <= *c && *c <= '9');
 pub assume_specification [char::is_ascii_uppercase] (c: &char) -> (r: bool) ensures r == ('A' <= *c && *c <= 'Z');
 pub assume_specification [char::is_ascii_lowercase] (c: &char) -> (r: bool) ensures r == ('a' <= *c && *c <= 'z');
+// other std character classes: no contract (nothing is assumed about their result), so a character class built on them is checked
+// against its _spec function instead of ending UNDECIDED
+pub assume_specification [char::is_numeric] (c: char) -> (r: bool);
+pub assume_specification [char::is_alphabetic] (c: char) -> (r: bool);
+pub assume_specification [char::is_alphanumeric] (c: char) -> (r: bool);
+pub assume_specification [char::is_ascii_alphabetic] (c: &char) -> (r: bool);
+pub assume_specification [char::is_ascii_alphanumeric] (c: &char) -> (r: bool);
 pub open spec fn is_digit_spec(c: char) -> bool { '0' <= c && c <= '9' }
 pub open spec fn is_alpha_spec(c: char) -> bool { ('A' <= c && c <= 'Z') || ('a' <= c && c <= 'z') || c == '_' }
 pub open spec fn is_identifier_postfix_spec(c: char) -> bool { c == '?' || c == '!' }
